@@ -180,8 +180,13 @@ def run(res, tier, seed):
         vpath = os.path.join(wd, f"G_{nm}.verdicts.ndjson")
         tpath = os.path.join(wd, f"G_{nm}.trace.ndjson")
         vlib.write_ndjson(cpath, cases)
-        vlib.run_driver("drive_sigcheck", ["replay", "--trace", tpath], stdin_path=cpath, stdout_path=vpath, timeout=2400)
-        traces.append(tpath)
+        # the two largest generators of the thorough tier are judged against the case fields only; their
+        # events (gigabytes) are not also given to the monitor
+        monitored = nm not in ("double", "four")
+        vlib.run_driver("drive_sigcheck", ["replay"] + (["--trace", tpath] if monitored else []), stdin_path=cpath,
+                        stdout_path=vpath, timeout=2400)
+        if monitored:
+            traces.append(tpath)
         n = 0
         for v, c in zip(vlib.read_ndjson(vpath), cases):
             n += 1
